@@ -153,7 +153,7 @@ CLAIMED = {
          "L2Distance.distance is finite for all coordinate pairs incl. coincident ones while the naive sqrt form is not; the isfinite guard is transparent on the finite branch. The whole pipeline model "
          "instantiated at dual numbers is compared with jax.jvp of the implementation; grad and jacfwd of log_probability / predictive mean / variance w.r.t. hyper-parameters, noise, mean and y, both solvers, "
          "against Richardson finite differences of an independent numpy oracle; finiteness of coordinate gradients at coincident points.",
-    note="PARTIAL: JAX's AD engine is an oracle; kernel-formula derivatives enter the model as tangents from jax.jvp of to_symm_qsm. Trusted: Coquelicot, stdlib real axioms.",
+    note="PARTIAL: JAX's AD engine is an oracle; kernel-formula derivatives enter the model as tangents from jax.jvp of to_symm_qsm. Trusted: Coquelicot, stdlib real axioms. A genuine defect of the pinned tree was found and repaired here (fix 6d33e49): Quasisep.evaluate poisoned reverse-mode derivatives for time scales much shorter than the data span; the check differentiates at such scales, at y == mean and at noise levels that are exactly zero.",
     technique="Coq proof (is_derive of dual evaluation; totality of the guarded L2 gradient) + dual-number model correspondence",
     ref="DESIGN.md section 6, C15"),
  "C20": dict(
